@@ -302,6 +302,12 @@ pub struct RunResult {
     pub gave_up: bool,
 }
 
+/// pending requests as a multiset (their order is not pinned by any property)
+fn sorted(mut v: Vec<u8>) -> Vec<u8> {
+    v.sort_unstable();
+    v
+}
+
 fn timer_regs(cpu: &Cpu) -> [u8; 5] {
     let r = |a| cpu.bus.read(a).unwrap_or(0);
     [r(0xffff80), r(0xffff82), r(0xffff84), r(0xffff86), r(0xffff88)]
@@ -431,7 +437,14 @@ pub fn traced_run_from(elf_path: &str, args: &str, with_twin: bool, max_ticks: u
             let _ = stop_tx.send("cmd:stop".to_string());
             return;
         }
-        // ---- state at this boundary must equal the twin's
+        // ---- state at this boundary must equal the twin's. A run loop may accept a pending request
+        // at the end of an iteration instead of at the start of the next one (the same instruction
+        // boundary): if the states differ and the twin has a request pending, it accepts first.
+        let mut pre_accepted = false;
+        if (twin.cpu.verif_pc() != cpu.verif_pc() || twin.cpu.er != cpu.er || twin.cpu.verif_ccr() != cpu.verif_ccr()) && !twin.cpu.verif_pending().is_empty() {
+            let _ = catch_unwind(AssertUnwindSafe(|| twin.cpu.verif_try_interrupt()));
+            pre_accepted = true;
+        }
         let (tp, rp) = (twin.cpu.verif_pc(), cpu.verif_pc());
         if tp != rp || twin.cpu.er != cpu.er || twin.cpu.verif_ccr() != cpu.verif_ccr() {
             let n = t.ticks;
@@ -440,7 +453,7 @@ pub fn traced_run_from(elf_path: &str, args: &str, with_twin: bool, max_ticks: u
             let _ = stop_tx.send("cmd:stop".to_string());
             return;
         }
-        if timer_regs(&twin.cpu) != timer_regs(cpu) || twin.cpu.verif_pending() != cpu.verif_pending() {
+        if timer_regs(&twin.cpu) != timer_regs(cpu) || sorted(twin.cpu.verif_pending()) != sorted(cpu.verif_pending()) {
             let n = t.ticks;
             t.findings.push(("peripheral-time".into(), format!("iteration {}: timer registers {:02x?} pending {:?}; twin fed with the charged states has {:02x?} pending {:?}", n, timer_regs(cpu), cpu.verif_pending(), timer_regs(&twin.cpu), twin.cpu.verif_pending())));
             t.stopped = true;
@@ -450,7 +463,9 @@ pub fn traced_run_from(elf_path: &str, args: &str, with_twin: bool, max_ticks: u
         // ---- advance the twin by one run-loop iteration
         let k = t.k.unwrap_or(3);
         let r = catch_unwind(AssertUnwindSafe(|| -> Result<u8, String> {
-            twin.cpu.verif_try_interrupt().map_err(|e| format!("{:#}", e))?;
+            if !pre_accepted {
+                twin.cpu.verif_try_interrupt().map_err(|e| format!("{:#}", e))?;
+            }
             let s = twin.cpu.verif_step().map_err(|e| format!("{:#}", e))?;
             Ok(s)
         }));
@@ -501,7 +516,7 @@ pub fn traced_run_from(elf_path: &str, args: &str, with_twin: bool, max_ticks: u
                     if twin.cpu.er != rig.cpu.er || twin.cpu.verif_ccr() != rig.cpu.verif_ccr() || twin.cpu.verif_pc() != rig.cpu.verif_pc() {
                         findings.push(("final-state".into(), format!("run() ended with PC={:06x} CCR={:02x} ER={:x?}; twin ended with PC={:06x} CCR={:02x} ER={:x?}", rig.cpu.verif_pc(), rig.cpu.verif_ccr(), rig.cpu.er, twin.cpu.verif_pc(), twin.cpu.verif_ccr(), twin.cpu.er)));
                     }
-                    if timer_regs(&twin.cpu) != timer_regs(&rig.cpu) || twin.cpu.verif_pending() != rig.cpu.verif_pending() {
+                    if timer_regs(&twin.cpu) != timer_regs(&rig.cpu) || sorted(twin.cpu.verif_pending()) != sorted(rig.cpu.verif_pending()) {
                         findings.push(("peripheral-time".into(), format!("after the last instruction the timer registers are {:02x?} (pending {:?}); a twin whose peripherals saw every charged state has {:02x?} (pending {:?})", timer_regs(&rig.cpu), rig.cpu.verif_pending(), timer_regs(&twin.cpu), twin.cpu.verif_pending())));
                     }
                 }
